@@ -5,8 +5,16 @@ Theorems about the model in `Rc/Model/Framing.lean` (which mirrors routecore aft
 fixes F11, F12, F23, F23b).  The per-type message decoders are an abstract function
 (`dec` / `body`); wherever "no panic" is claimed, their totality is an explicit hypothesis
 (`∀ b, body b ≠ .panic`) – that hypothesis is what C01..C03 are about.
+
+The last section discharges the hypothesis: `Rc/Model/SessionDecode.lean` defines the real
+`body` (`Message::from_octets` with the connection's `SessionConfig`, composed from the C02 and
+C03 models, then the accessors `handle_msg` / `handle_event` call), `Rc/Lemmas/SessionDecode.lean`
+proves it total from `Rc.Thm.C02.parse_total` and `Rc.Thm.C03.{open_decode_total,
+open_accessors_total, notif_total, keepalive_total}`, and the `_concrete` theorems below are the
+unconditional statements.
 -/
 import Rc.Model.Framing
+import Rc.Lemmas.SessionDecode
 
 namespace Rc.Thm.C09
 open Rc Rc.Framing
@@ -713,5 +721,121 @@ example : 18 ≤ (marker ++ [0, 5]).length ∧ lenField (marker ++ [0, 5]) < 19 
 example : 19 ≤ lenField (List.replicate 16 0 ++ [0, 19, 4]) ∧
     lenField (List.replicate 16 0 ++ [0, 19, 4]) ≤ (List.replicate 16 0 ++ [0, 19, 4]).length ∧
     (List.replicate 16 (0 : UInt8) ++ [0, 19, 4]).take 16 ≠ marker := by decide
+
+/-! ### the decoder-totality hypothesis discharged (composition with C02 and C03) -/
+
+section concrete
+open Rc.SessionDecode
+
+/-- **The per-type decoders are total.** For every session configuration (ASN width, ADD-PATH
+table, admissible remote AS) and every byte string: `Message::from_octets(bytes, Some(&config))`
+followed by the accessors `Session::handle_msg` / `handle_event` call on its result (`my_asn`,
+`addpath_families_vec`, `holdtime`, `identifier()[0..4]`, `four_octet_capable`, `details()`)
+returns a value or an error and never panics.  This is the hypothesis `hbody` of the theorems
+above, proved from C02 `parse_total` and C03 `open_decode_total` / `open_accessors_total` /
+`notif_total` / `keepalive_total`. -/
+theorem session_decoders_total (sc : SessCfg) (f : Bytes) : sessionBody sc f ≠ .panic :=
+  sessionBody_ne_panic sc f
+
+/-- The framing model's own header step (marker, length ≥ 19, type 1..4) and `Header::parse` +
+type dispatch as C03 models them are the same function of the frame: putting the concrete
+decoder behind `decodeMsg` changes nothing. -/
+theorem frame_decoder_is_message_from_octets (sc : SessCfg) (f : Bytes) :
+    decodeMsg (sessionBody sc) f = sessionBody sc f :=
+  decodeMsg_sessionBody sc f
+
+/-- **Clause 4, framing side, unconditional**: every session configuration, every byte stream,
+every chunking. -/
+theorem feedAll_ne_panic_concrete (sc : SessCfg) (chunks : List Bytes) :
+    (feedAll (decodeMsg (sessionBody sc)) chunks).2 ≠ .panic :=
+  feedAll_ne_panic _ (decodeMsg_ne_panic _ (session_decoders_total sc)) chunks
+
+/-- **Clause 4, one tick, unconditional**: for every state, every session configuration and every
+byte buffer the message branch of `Session::tick` does not panic. -/
+theorem wire_cannot_panic_session_concrete (sc : SessCfg) (st : St) (d : Bool) (buf : Bytes) :
+    tickMsg (sessionBody sc) { st := st, delayOpen := d, conn := true } buf ≠ .panic :=
+  wire_cannot_panic_session _ (session_decoders_total sc) st d buf
+
+/-- **Clause 4, whole stream, unconditional**: no byte stream from the peer panics the session
+task, whatever the state it starts in and whatever the session configuration. -/
+theorem session_run_never_panics_concrete (sc : SessCfg) (n : Nat) (st : St) (d : Bool) (buf : Bytes) :
+    Tick.panic ∉ (sessionRun (sessionBody sc) n { st := st, delayOpen := d, conn := true } buf).1 :=
+  session_run_never_panics _ (session_decoders_total sc) n st d buf
+
+/-- `sessionRunV` with a constant schedule is `sessionRun` -/
+theorem sessionRunV_const (body : Bytes → Outcome WireMsg) :
+    ∀ (n : Nat) (s : Sess) (buf : Bytes), sessionRunV (fun _ => body) n s buf = sessionRun body n s buf := by
+  intro n
+  induction n with
+  | zero => intro s buf; rfl
+  | succ n ih =>
+    intro s buf
+    unfold sessionRunV sessionRun
+    cases tickMsg body s buf with
+    | handled ok s' outs rest => cases ok <;> simp [ih]
+    | _ => rfl
+
+/-- **Clause 4 with a configuration that changes during the session.** The OPEN-accepting arms
+rewrite `Connection::session_config` (`set_four_octet_asns`, `add_famdir`), so later frames are
+decoded under another configuration than earlier ones.  Whatever configuration is in force at
+each tick (`scAt`: an arbitrary schedule), no tick of the run is a panic. -/
+theorem session_run_never_panics_any_config (scAt : Nat → SessCfg) :
+    ∀ (n : Nat) (st : St) (d : Bool) (buf : Bytes),
+      Tick.panic ∉ (sessionRunV (fun k => sessionBody (scAt k)) n
+        { st := st, delayOpen := d, conn := true } buf).1 := by
+  intro n
+  induction n with
+  | zero => intro st d buf; simp [sessionRunV]
+  | succ n ih =>
+    intro st d buf
+    have hne := wire_cannot_panic_session_concrete (scAt n) st d buf
+    unfold sessionRunV
+    cases ht : tickMsg (sessionBody (scAt n)) { st := st, delayOpen := d, conn := true } buf with
+    | panic => exact absurd ht hne
+    | readErr => simp
+    | eof => simp
+    | handled ok s' outs rest =>
+      cases ok with
+      | false => simp
+      | true =>
+        simp only
+        split
+        · rename_i hc
+          obtain ⟨st', d', c'⟩ := s'
+          simp only at hc
+          subst hc
+          simp only [List.mem_cons, reduceCtorEq, false_or]
+          exact ih st' d' rest
+        · simp
+
+/-- a 4-octet OPEN (AS 65002, hold 90, id 10.0.0.2, capabilities MP 1/1, 4-octet AS 65002,
+ADD-PATH 1/1 both directions) -/
+def exOpen : Bytes :=
+  marker ++ [0, 55, 1, 4, 0xfd, 0xea, 0, 90, 10, 0, 0, 2, 26, 2, 24,
+    1, 4, 0, 1, 0, 1, 65, 4, 0, 0, 0xfd, 0xea, 69, 4, 0, 1, 1, 3,
+    73, 4, 1, 0x41, 1, 0x42]
+/-- a minimal UPDATE (no withdrawals, no attributes, no NLRI) -/
+def exUpdate : Bytes := marker ++ [0, 23, 2, 0, 0, 0, 0]
+def exCfg : SessCfg := ⟨modern, fun a => a == 65002⟩
+
+/-- non-vacuity of the concrete decoder: real frames of every kind decode to the `WireMsg` the
+FSM model expects (computed by the kernel from the composed C02/C03 models); a version-error
+NOTIFICATION is recognised; a foreign AS is refused; a broken ADD-PATH direction is an OPEN
+error; ROUTE-REFRESH, a short OPEN and a bad marker are errors. -/
+example :
+    sessionBody exCfg exKeepalive = .ok .keepalive ∧
+    sessionBody exCfg exNotification = .ok (.notification false) ∧
+    sessionBody exCfg (marker ++ [0, 23, 3, 2, 1, 0, 4]) = .ok (.notification true) ∧
+    sessionBody exCfg exUpdate = .ok .update ∧
+    sessionBody exCfg exOpen = .ok (.open true true) ∧
+    sessionBody ⟨modern, fun a => a == 65003⟩ exOpen = .ok (.open false true) ∧
+    sessionBody exCfg (exOpen.set 48 0) = .ok (.open true false) ∧
+    sessionBody exCfg (marker ++ [0, 23, 5, 0, 1, 0, 1]) = .err ∧
+    sessionBody exCfg (exOpen.take 40) = .err ∧
+    sessionBody exCfg ((0 : UInt8) :: exKeepalive.drop 1) = .err := by
+  refine ⟨by decide, by decide, by decide, by decide, by decide, by decide, by decide, by decide,
+    by decide, by decide⟩
+
+end concrete
 
 end Rc.Thm.C09
